@@ -568,7 +568,8 @@ func c02RootOfTrust(r *hx.Run, notes *vNotes) {
 	for rep := 0; rep < reps; rep++ {
 		for ci, c := range cases {
 			rng := caseRng(r, 2, rep*len(cases)+ci)
-			s := honestSpec(rng)
+			// validity windows around the wall clock: the produced options carry no time and are used as they come
+			s := c12Wall(rng, time.Now())
 			addLookalike(rng, s)
 			// PKI C: an unrelated root with its own names
 			s.Certs = append(s.Certs, &world.CertSpec{Role: "rootC", CN: "Example Root", Org: "Example Org", Serial: big.NewInt(3001), NotBefore: s.Cert("root").NotBefore, NotAfter: s.Cert("root").NotAfter, IsCA: true, Key: 9, SignKey: 9})
@@ -675,6 +676,56 @@ func c02RootOfTrust(r *hx.Run, notes *vNotes) {
 			r.Emit(line, obs, fail, fmt.Sprintf("rot|%s", c.name), true, tags...)
 		}
 	}
+	c02DefaultPool(r)
+}
+
+// c02DefaultPool: "the embedded Intel root when no pool is given" holds whatever other option values exist or existed: whatever a
+// caller does to the pool of ITS options value (verify.DefaultOptions(), RootOfTrustToOptions of an empty configuration) must not
+// change what a nil pool means for anybody else (harness-only).
+func c02DefaultPool(r *hx.Run) {
+	rng := caseRng(r, 7, 0)
+	s := c12Wall(rng, time.Now())
+	addLookalike(rng, s)
+	w := world.Build(s)
+	foreign := w.Certs["root"].Cert // the synthetic PKI's root: foreign to the embedded Intel root
+	nilPoolAccepts := func() string {
+		o := &verify.Options{}
+		var err error
+		res, _ := hx.Guard(func() string { err = verify.TdxQuote(proto.Clone(w.Quote).(*pb.QuoteV4), o); return "" })
+		if res == "panic" {
+			return "panic"
+		}
+		if err == nil {
+			return "ok"
+		}
+		return "err"
+	}
+	obs, fail := "independent", ""
+	if v := nilPoolAccepts(); v != "err" {
+		obs, fail = "generator", "a chain under a synthetic root verifies under the embedded root before anything was touched: "+v
+	}
+	touched := 0
+	for _, mk := range []func() *verify.Options{
+		verify.DefaultOptions,
+		func() *verify.Options { o, _ := verify.RootOfTrustToOptions(&ccpb.RootOfTrust{}); return o },
+	} {
+		if o := mk(); o != nil && o.TrustedRoots != nil {
+			o.TrustedRoots.AddCert(foreign) // a caller extends the pool of ITS options
+			touched++
+		}
+	}
+	if fail == "" {
+		if v := nilPoolAccepts(); v != "err" {
+			obs, fail = "leaked", fmt.Sprintf("after a caller added a root to the pool of its own default options value, a verification with NO pool (embedded Intel root) accepts a chain under that root (%s): the default pool is shared", v)
+		} else if o := verify.DefaultOptions(); o.TrustedRoots != nil {
+			var err error
+			hx.Guard(func() string { o.GetCollateral, o.CheckRevocations = false, false; err = verify.TdxQuote(proto.Clone(w.Quote).(*pb.QuoteV4), o); return "" })
+			if err == nil {
+				obs, fail = "leaked", "a later verify.DefaultOptions() trusts a root another caller added to its own default options"
+			}
+		}
+	}
+	r.Emit(fmt.Sprintf("# C02.default-pool touched=%d", touched), obs, fail, "default-pool", true, "rot", "default-pool")
 }
 
 // rotTrustsExactly: a chain of each PKI verifies against the produced pool iff that PKI's root (or the chain's
@@ -721,6 +772,20 @@ func rotTrustsExactly(w *world.World, opts *verify.Options, listed []string) str
 		})
 		if res == "panic" || (res == "ok") != want {
 			return fmt.Sprintf("verify.TdxQuote with the produced options on a quote of PKI %q: %s (%v), its certificates are listed = %v", "A"+p, res, verr, want)
+		}
+		// … and with the produced options value itself, exactly as RootOfTrustToOptions returned it (no time set; collateral
+		// and revocation switched off so that nothing has to be fetched)
+		asIs := *opts
+		asIs.GetCollateral, asIs.CheckRevocations = false, false
+		res2, _ := hx.Guard(func() string {
+			verr = verify.TdxQuote(proto.Clone(q2).(*pb.QuoteV4), &asIs)
+			if verr != nil {
+				return "err"
+			}
+			return "ok"
+		})
+		if res2 == "panic" || (res2 == "ok") != want {
+			return fmt.Sprintf("verify.TdxQuote with the options value RootOfTrustToOptions produced (used as is) on a quote of PKI %q: %s (%v), its certificates are listed = %v", "A"+p, res2, verr, want)
 		}
 	}
 	return ""
